@@ -11,8 +11,8 @@
 (***************************************************************************)
 EXTENDS Naturals, Integers, Sequences, TLC
 
-VARIABLES tpb, reset, start, sum, now, moved, t0, folds, lastev, pend, slack
-tvars == <<tpb, reset, start, sum, now, moved, t0, folds, lastev, pend, slack>>
+VARIABLES tpb, reset, start, sum, now, moved, t0, folds, lastev, pend, slack, permits, known
+tvars == <<tpb, reset, start, sum, now, moved, t0, folds, lastev, pend, slack, permits, known>>
 
 Max(a, b) == IF a > b THEN a ELSE b
 \* round(a / b) to the nearest integer, ties to even (Python's round), a >= 0, b > 0
@@ -24,27 +24,31 @@ Limited == tpb > 0
 WaitEnd(t) == IF Limited /\ start >= 0 THEN Max(t, start + sum * tpb) ELSE t
 
 TInitS(p, r, sl) == /\ tpb = p /\ reset = r /\ start = -1 /\ sum = 0 /\ now = 0
-               /\ moved = 0 /\ t0 = -1 /\ folds = 0 /\ lastev = "init" /\ pend = <<>> /\ slack = sl
+               /\ moved = 0 /\ t0 = -1 /\ folds = 0 /\ lastev = "init" /\ pend = <<>> /\ slack = sl /\ permits = {} /\ known = {}
 
 TInit(p, r) == TInitS(p, r, 0)
 
 \* wait() number k is entered at te: the instant at which it must end is fixed by the accounting at that moment
-WaitBegin(k, te) ==
+WaitBegin(k, te, strm) ==
   /\ te >= now /\ now' = te /\ lastev' = "enter"
-  /\ pend' = [x \in DOMAIN pend \cup {k} |-> IF x = k THEN WaitEnd(te) ELSE pend[x]]
-  /\ UNCHANGED <<tpb, reset, start, sum, moved, t0, folds, slack>>
+  /\ pend' = [x \in DOMAIN pend \cup {k} |-> IF x = k THEN [end |-> WaitEnd(te), strm |-> strm] ELSE pend[x]]
+  /\ UNCHANGED <<tpb, reset, start, sum, moved, t0, folds, slack, permits, known>>
 \* ... and it is left at tx - never earlier and never later than that instant
 WaitDone(k, tx) ==
-  /\ k \in DOMAIN pend /\ tx = pend[k] /\ tx >= now
+  /\ k \in DOMAIN pend /\ tx = pend[k].end /\ tx >= now
   /\ now' = tx /\ lastev' = "wait"
+  /\ permits' = permits \cup {pend[k].strm}            \* that stream may now do one I/O
   /\ pend' = [x \in DOMAIN pend \ {k} |-> pend[x]]
-  /\ UNCHANGED <<tpb, reset, start, sum, moved, t0, folds, slack>>
-Wait(te, tx) == te >= now /\ tx = WaitEnd(te) /\ now' = tx /\ lastev' = "wait"
-                /\ UNCHANGED <<tpb, reset, start, sum, moved, t0, folds, pend, slack>>
+  /\ UNCHANGED <<tpb, reset, start, sum, moved, t0, folds, slack, known>>
+Wait(te, tx) == te >= now /\ tx = WaitEnd(te) /\ now' = tx /\ lastev' = "wait" /\ permits' = permits \cup {0}
+                /\ UNCHANGED <<tpb, reset, start, sum, moved, t0, folds, pend, slack, known>>
 
 \* append(data, ts): n bytes whose I/O started at ts are accounted at time t
-Account(t, ts, n) ==
+\* (no limited I/O without having been let through by this limiter since the stream's previous I/O)
+AccountBy(t, ts, n, strm) ==
   /\ t >= now /\ ts <= t /\ now' = t
+  \* (a stream's very first I/O on this limiter may already have been in flight when the limiter was attached to it)
+  /\ (Limited /\ strm \in known => strm \in permits) /\ permits' = permits \ {strm} /\ known' = known \cup {strm}
   /\ IF ~Limited THEN UNCHANGED <<start, sum, folds>>
      ELSE LET s0 == IF start < 0 THEN ts ELSE start IN
           IF ts - s0 > reset
@@ -56,9 +60,11 @@ Account(t, ts, n) ==
   /\ lastev' = "account"
   /\ UNCHANGED <<tpb, reset, pend, slack>>
 
+Account(t, ts, n) == AccountBy(t, ts, n, 0)
+
 \* the limit is changed: the memory is dropped
 SetLimit(t, p) ==
-  /\ t >= now /\ now' = t /\ tpb' = p /\ start' = -1 /\ sum' = 0 /\ moved' = 0 /\ t0' = -1 /\ folds' = 0 /\ lastev' = "limit"
+  /\ t >= now /\ now' = t /\ tpb' = p /\ start' = -1 /\ sum' = 0 /\ moved' = 0 /\ t0' = -1 /\ folds' = 0 /\ lastev' = "limit" /\ permits' = {} /\ known' = {}
   /\ UNCHANGED <<reset, pend, slack>>
 
 \* Rate bound: whenever a stream is let through (its wait ends), everything accounted so far - that is, everything
